@@ -1,4 +1,4 @@
-import LcModel.Prove.Defs
+import LcModel.Prove.LemmasC01
 /-! helper lemmas for the Prove layer -/
 namespace Prove
 
@@ -281,19 +281,25 @@ theorem onLastState_ok {s : St} {p : Nat} {h : VH} {now b : Nat} {ds : List Nat}
               · split at hr
                 · rename_i ps hps
                   simp only [M.bind_eq_ok] at hr
-                  obtain ⟨provedTd, hprovedTd, isp, hisp, hr⟩ := hr
+                  obtain ⟨provedTd, hprovedTd, hr⟩ := hr
                   split at hr
                   · rename_i hcond
                     simp at hcond
-                    obtain ⟨⟨h1, h2⟩, h3⟩ := hcond
-                    subst h3
-                    obtain ⟨pst2, hpst2⟩ := PeerState.receiveLastStateProof_isOk_of_proveState
-                      ((PeerState.receiveLastState_ok hpst1).2.1.trans hps)
-                      (PeerState.receiveLastState_kind_ne_st6 hpst1) (newChild ps h s.lastNBlocks)
-                    rw [hpst2] at hr
-                    simp [pure, Except.pure] at hr; subst hr
-                    exact .child pst pst1 pst2 prev ps newTd hp hprev hpst1 hps hnewTd
-                      (h1 ▸ hprovedTd) h2 hisp hpst2 rfl
+                    obtain ⟨h1, h2⟩ := hcond
+                    simp only [M.bind_eq_ok] at hr
+                    obtain ⟨isp, hisp, hr⟩ := hr
+                    split at hr
+                    · rename_i h3
+                      subst h3
+                      obtain ⟨pst2, hpst2⟩ := PeerState.receiveLastStateProof_isOk_of_proveState
+                        ((PeerState.receiveLastState_ok hpst1).2.1.trans hps)
+                        (PeerState.receiveLastState_kind_ne_st6 hpst1) (newChild ps h s.lastNBlocks)
+                      rw [hpst2] at hr
+                      simp [pure, Except.pure] at hr; subst hr
+                      exact .child pst pst1 pst2 prev ps newTd hp hprev hpst1 hps hnewTd
+                        (h1 ▸ hprovedTd) h2 hisp hpst2 rfl
+                    · simp [pure, Except.pure] at hr; subst hr
+                      exact .moved pst pst1 prev hp hprev hpst1 rfl
                   · simp [pure, Except.pure] at hr; subst hr
                     exact .moved pst pst1 prev hp hprev hpst1 rfl
                 · simp [pure, Except.pure] at hr; subst hr
@@ -472,15 +478,102 @@ inductive ProofCase (s : St) (p : Nat) (m : ProofMsg) (now b : Nat) (ds : List N
       nps.last = req.last → commitProveState s p nps = .ok (.ok (out.st, true)) →
       ProofCase s p m now b ds out
 
+section
+variable {s : St} {p : Nat} {pst : PeerState} {req : ProveRequest} {m : ProofMsg} {now b : Nat}
+  {ds : List Nat} {bG : Nat} {dsG : List Nat} {r sc ln : Nat} {tf : Bool}
+
+theorem proofFinish_sat (hp : getPeer s p = some pst) (hreq : pst.proveRequest? = some req)
+    (hvid : req.last.vid = m.last.vid) :
+    Sat (ProofCase s p m now b ds) (proofFinish s p pst req m now b ds bG dsG r sc ln tf) := by
+  unfold proofFinish
+  split
+  · refine Sat.bind fun lastTd _ => Sat.bind fun c _ => ?_
+    split
+    · split
+      · rename_i pst' hpst'
+        exact Sat.pure (.rerequest pst pst' req _ hp hreq hvid hpst' rfl)
+      · exact Sat.pure (.same rfl)
+    · exact Sat.pure (.same rfl)
+  · refine Sat.bind fun lh _ => ?_
+    split
+    · exact Sat.pure (.same rfl)
+    · rename_i lastHeaders
+      extract_lets nps jp4
+      have h4 : ∀ r, Sat (ProofCase s p m now b ds) (jp4 r) := by
+        intro r
+        simp only [jp4]
+        refine Sat.bind fun cr hcr => ?_
+        split
+        · exact Sat.pure (.same rfl)
+        · exact Sat.pure (.commit pst req nps hp hreq hvid rfl hcr)
+        · rename_i s1
+          obtain ⟨_, _, hc⟩ := commitProveState_ok hcr
+          have hs1 : s1 = s := by
+            rcases hc with ⟨_, hc⟩ | ⟨hc, _⟩
+            · exact hc
+            · cases hc
+          subst hs1
+          refine Sat.bind fun lastTd _ => ?_
+          split
+          · exact Sat.pure (.same rfl)
+          · split
+            · rename_i pst' hpst'
+              exact Sat.pure (.rerequest pst pst' req _ hp hreq hvid hpst' rfl)
+            · exact Sat.pure (.same rfl)
+      clear_value jp4
+      split
+      · exact Sat.bind fun a ha => by cases ha
+      · exact h4 _
+
+theorem proofTd_sat (hp : getPeer s p = some pst) (hreq : pst.proveRequest? = some req)
+    (hvid : req.last.vid = m.last.vid) :
+    Sat (ProofCase s p m now b ds) (proofTd s p pst req m now b ds bG dsG r sc ln tf) := by
+  have h3 := proofFinish_sat (now := now) (b := b) (ds := ds) (bG := bG) (dsG := dsG) (r := r)
+    (sc := sc) (ln := ln) (tf := tf) hp hreq hvid
+  unfold proofTd
+  split
+  · exact Sat.pure (.same rfl)
+  · split
+    · exact Sat.pure (.same rfl)
+    · split
+      · split
+        · refine Sat.bind fun t0 _ => Sat.bind fun t1 _ => Sat.bind fun v _ => ?_
+          split
+          · exact h3
+          · exact Sat.pure (.same rfl)
+        · exact h3
+      · exact h3
+
+theorem proofCont_sat (hp : getPeer s p = some pst) (hreq : pst.proveRequest? = some req)
+    (hvid : req.last.vid = m.last.vid) :
+    Sat (ProofCase s p m now b ds) (proofCont s p pst req m now b ds bG dsG r sc ln tf) := by
+  have h2 := proofTd_sat (now := now) (b := b) (ds := ds) (bG := bG) (dsG := dsG) (r := r)
+    (sc := sc) (ln := ln) (tf := tf) hp hreq hvid
+  intro out ho
+  rcases proofCont_inv ho with h' | ⟨-, -, h'⟩
+  · exact .same h'
+  · exact h2 out h'
+
+theorem proofChecks_sat (hp : getPeer s p = some pst) (hreq : pst.proveRequest? = some req)
+    (hvid : req.last.vid = m.last.vid) :
+    Sat (ProofCase s p m now b ds) (proofChecks s p pst req m now b ds bG dsG r sc ln) := by
+  intro out ho
+  rcases proofChecks_inv ho with h' | ⟨-, tf, h'⟩
+  · exact .same h'
+  · exact proofCont_sat hp hreq hvid out h'
+end
+
 theorem onProof_sat (s : St) (p : Nat) (m : ProofMsg) (now b bG : Nat) (ds dsG : List Nat) :
     Sat (ProofCase s p m now b ds) (onProof s p m now b ds bG dsG) := by
-  unfold onProof
+  rw [onProof_eq]
   split
   · exact Sat.pure (.same rfl)
   · rename_i pst hp
     split
     · exact Sat.pure (.same rfl)
     · rename_i req hreq
+      split
+      · exact Sat.pure (.same rfl)
       split
       · rename_i hvid
         split
@@ -497,94 +590,12 @@ theorem onProof_sat (s : St) (p : Nat) (m : ProofMsg) (now b bG : Nat) (ds dsG :
         · exact Sat.pure (.same rfl)
       · rename_i hvid
         have hvid : req.last.vid = m.last.vid := Decidable.not_not.mp hvid
+        split
+        · exact Sat.pure (.same rfl)
         refine Sat.bind fun cm hcm => ?_
         split
         · exact Sat.pure (.same rfl)
-        · rename_i reorg sampled lastNCount
-          split
-          · exact Sat.pure (.same rfl)
-          · split
-            · exact Sat.pure (.same rfl)
-            · refine Sat.bind fun tauFailed htf => ?_
-              extract_lets jp3 jp2 jp1
-              have h3 : ∀ r, Sat (ProofCase s p m now b ds) (jp3 r) := by
-                intro r
-                simp -zeta only [jp3]
-                split
-                · refine Sat.bind fun lastTd _ => Sat.bind fun c _ => ?_
-                  split
-                  · split
-                    · rename_i pst' hpst'
-                      exact Sat.pure (.rerequest pst pst' req _ hp hreq hvid hpst' rfl)
-                    · exact Sat.pure (.same rfl)
-                  · exact Sat.pure (.same rfl)
-                · refine Sat.bind fun lh _ => ?_
-                  split
-                  · exact Sat.pure (.same rfl)
-                  · rename_i lastHeaders
-                    extract_lets nps jp4
-                    have h4 : ∀ r, Sat (ProofCase s p m now b ds) (jp4 r) := by
-                      intro r
-                      simp only [jp4]
-                      refine Sat.bind fun cr hcr => ?_
-                      split
-                      · exact Sat.pure (.same rfl)
-                      · exact Sat.pure (.commit pst req nps hp hreq hvid rfl hcr)
-                      · rename_i s1
-                        obtain ⟨_, _, hc⟩ := commitProveState_ok hcr
-                        have hs1 : s1 = s := by
-                          rcases hc with ⟨_, hc⟩ | ⟨hc, _⟩
-                          · exact hc
-                          · cases hc
-                        subst hs1
-                        refine Sat.bind fun lastTd _ => ?_
-                        split
-                        · exact Sat.pure (.same rfl)
-                        · split
-                          · rename_i pst' hpst'
-                            exact Sat.pure (.rerequest pst pst' req _ hp hreq hvid hpst' rfl)
-                          · exact Sat.pure (.same rfl)
-                    clear_value jp4
-                    split
-                    · exact Sat.bind fun a ha => by cases ha
-                    · exact h4 _
-              clear_value jp3
-              have h2 : ∀ r, Sat (ProofCase s p m now b ds) (jp2 r) := by
-                intro r
-                simp only [jp2]
-                refine Sat.bind fun c _ => ?_
-                split
-                · exact Sat.pure (.same rfl)
-                · split
-                  · exact Sat.pure (.same rfl)
-                  · split
-                    · exact Sat.pure (.same rfl)
-                    · split
-                      · split
-                        · refine Sat.bind fun t0 _ => Sat.bind fun t1 _ => Sat.bind fun v _ => ?_
-                          split
-                          · exact h3 _
-                          · exact Sat.pure (.same rfl)
-                        · exact h3 _
-                      · exact h3 _
-              clear_value jp2
-              have h1 : ∀ r, Sat (ProofCase s p m now b ds) (jp1 r) := by
-                intro r
-                simp only [jp1]
-                split
-                · refine Sat.bind fun c _ => ?_
-                  split
-                  · exact Sat.pure (.same rfl)
-                  · exact h2 _
-                · exact h2 _
-              clear_value jp1
-              split
-              · split
-                · split
-                  · exact Sat.pure (.same rfl)
-                  · exact h1 _
-                · exact h1 _
-              · exact h1 _
+        · exact proofChecks_sat hp hreq hvid
 
 theorem onProof_ok {s : St} {p : Nat} {m : ProofMsg} {now b bG : Nat} {ds dsG : List Nat} {out : Out}
     (hr : onProof s p m now b ds bG dsG = .ok out) : ProofCase s p m now b ds out :=
